@@ -45,6 +45,15 @@ def opFn (j : Json) : Except String Json := do
   if name == "coerce_response_name" then
     let a0 ← argStr j 0
     return Json.mkObj [("r", jstr (Pinned.Funcs.coerce_response_name a0))]
+  if name == "to_camel_case" then
+    let a0 ← argStr j 0
+    return Json.mkObj [("r", jstr (Pinned.Funcs.to_camel_case a0))]
+  if name == "fix_name_segment" then
+    let a0 ← argStr j 0
+    return Json.mkObj [("r", jstr (Pinned.Funcs.fix_name_segment a0))]
+  if name == "fix_field_path" then
+    let a0 ← argStr j 0
+    return Json.mkObj [("r", jstr (Pinned.Funcs.fix_field_path a0))]
   throw s!"unknown translated function {name}"
 
 def opsFuncs : List (String × (Json → Except String Json)) := [("fn", opFn)]
